@@ -24,7 +24,7 @@ def limbs(n):
             return out
 
 
-def validate(module, records, cfg="mc/Trace.cfg", timeout=3600, deque=False, env=None, heap="8g"):
+def validate(module, records, cfg="mc/Trace.cfg", timeout=3600, deque=False, env=None, heap="8g", extra_files=()):
     """Returns (bad, res): bad = list of verdict dicts (tid, line, clause, alarm?, ...) from the trace spec."""
     wd = tlc.mkscratch("trace")
     path = os.path.join(wd, "trace.ndjson")
@@ -35,7 +35,7 @@ def validate(module, records, cfg="mc/Trace.cfg", timeout=3600, deque=False, env
     e = {"TRACE_FILE": path}
     if env:
         e.update(env)
-    res = tlc.run(module, cfg, workers=1, env=e, timeout=timeout, coverage=False, deque=deque, heap=heap)
+    res = tlc.run(module, cfg, workers=1, env=e, timeout=timeout, coverage=False, deque=deque, heap=heap, extra_files=extra_files)
     got = tlc.printed(res, "BAD")
     if len(got) < 1:
         raise tlc.TLCError("trace spec %s printed no verdict line\n%s" % (module, res.out[-2000:]))
